@@ -5,12 +5,18 @@ import json, sys
 pid = sys.argv[1]
 wt = sys.argv[2] if len(sys.argv) > 2 else f"/tmp/wt3/{pid}"
 p = next(json.loads(l) for l in open('/verif/properties.jsonl') if json.loads(l)['id'] == pid)
-KNOWN = """Already known and not wanted again (all but the last are repaired in your checkout):
-  - turmoil-fs read_dir order came from a std HashSet; turmoil::net FIN lost on a full receive queue; random link repair erased an explicit one-way partition; turmoil::net TcpStream::connect leaked its table entry / port when refused or cancelled; turmoil-net abort of a SynReceived child leaked it; turmoil-net never re-acknowledged a retransmitted segment after a lost ACK; turmoil-net carried handshake retransmit attempts into the established connection;
-  - also repaired: due messages staged in a second per-destination link queue escaped hold() / Sim::links; UdpSocket::readable parked a datagram outside the bounded queue (capacity + 1); sync_dir moved the durable entry of a cross-directory rename per side; sync_dir(d) flushed d's creation past a pending RemoveDir(d);
-  - also repaired: the filesystem / io_uring clock read outside the paused runtime (wall-clock leak); HostTimer's step instant never cleared (destructors on crash / bounce); a FIN for a closed stream / after the read half was dropped answered with RST; abandoned connects counted against the listener backlog; a SYN for a socket pair still in the stream table panicking accept();
-  - reported and being triaged (do not report again): turmoil::net stream table keyed by SocketPair only (a stale handle of a reset stream acts on a newer stream with the same pair; stale FIN/RST of a previous connection hit the next one); DNS hands a name the address of a host registered by literal address; turmoil-net takes snd_wnd from stale reordered ACKs, advertises a hard-coded 65535 window in SYN / SYN-ACK, and loops forever when the MSS is 0; a connector that crashes after the peer accepted leaves the peer's read hanging; a peer blocked in write is not woken by a RST; an established turmoil::net TCP stream never recovers from a segment dropped by a partition;
-  - still present, recorded (do not report again): turmoil-net zero-window stall (no persist timer; poll_recv re-advertises only for reads >= recv_buf_cap/2); the turmoil::net TCP SYN-ACK is a oneshot fired by accept() and bypasses the link (hold / latency); multicast members are snapshotted at send time (a copy in flight reaches a socket that left / never joined); turmoil-fs keys pending data ops and durable entries by path string (data sync while a rename is pending, re-created files inheriting old contents, children of a renamed directory stranded, entries of a removed directory resurrecting); ticks that are not whole milliseconds make tokio clocks run ahead of virtual time; multicast-loop flag read from the destination port's socket; IPv4 broadcast fanned out to IPv6 hosts."""
+KNOWN = """Already known and not wanted again. REPAIRED in your checkout (do not re-report; a variant that still fails IS of interest):
+  - turmoil-fs read_dir order from a std HashSet; turmoil::net FIN lost on a full receive queue; random link repair erasing an explicit one-way partition; TcpStream::connect leaking its table entry / port when refused or cancelled; turmoil-net abort of a SynReceived child leaking it; turmoil-net never re-acknowledging a retransmitted segment after a lost ACK; handshake retransmit attempts carried into the established connection;
+  - due messages staged in a second per-destination link queue escaping hold() / Sim::links; UdpSocket::readable parking a datagram outside the bounded queue; sync_dir moving the durable entry of a cross-directory rename per side; sync_dir(d) flushing d's creation past a pending RemoveDir(d);
+  - the filesystem / io_uring clock read outside the paused runtime; HostTimer's step instant never cleared; a FIN for a closed stream / after the read half was dropped answered with RST; abandoned connects counted against the listener backlog; a SYN for a socket pair still in the stream table panicking accept();
+  - turmoil-net taking snd_wnd from stale reordered ACKs; MSS 0 looping forever; an orphaned (fd_closed) socket buffering new data; dropping a wildcard IPv4 listener resetting children of the IPv6 listener; poll_connect mapping CloseWait to refused; DNS handing a name the address of a host registered by literal address; a Panic barrier never told about its trigger; a Noop barrier yielding; a connector crashing after the SYN was answered leaving the peer hanging; Deliver(Duration::MAX) overflowing the fixture scheduler; a SYN reusing the 4-tuple of a Closed connection being swallowed; page_cache max_pages(0) spinning; AsyncCancel rewriting already posted completions; read_file ignoring a pending SetLen; dir_has_children ignoring a pending Rename into the directory.
+STILL PRESENT, recorded (do not report again):
+  - turmoil-net zero-window stall (no persist timer; poll_recv re-advertises only for reads >= recv_buf_cap/2); no TIME-WAIT (a retransmitted FIN after Closed is ignored / answered with RST); a lost RST strands an orphaned FIN_WAIT2 socket; SYN / SYN-ACK advertise a hard-coded 65535 window; a wildcard listener over-admits on a multi-homed host; a lingering FIN_WAIT2 binding blocks bind; Latency::fixed(>= 9 ms) makes every turmoil-net connect time out;
+  - the turmoil::net TCP SYN-ACK is a oneshot fired by accept() and bypasses the link (hold / latency / partition); stream-table entries keyed by SocketPair only (stale handle / stale FIN or RST of a previous connection hits the next one with the same pair); a peer blocked in write is not woken by a RST; an established turmoil::net stream never recovers from a segment dropped by a partition; a FIN dropped by a partition leaves a stale server socket;
+  - multicast members are snapshotted at send time; the multicast-loop flag is read from the destination port's socket; IPv4 broadcast is fanned out to IPv6 hosts;
+  - turmoil-fs keys pending data ops and durable entries by path string (data sync while a rename is pending, re-created files inheriting old contents, children of a renamed directory stranded, entries of a removed directory resurrecting, rename(p, p), rename of a directory into its own subtree, hard links / symlinks of renamed files); files / rings of a crashed incarnation are never closed;
+  - ticks that are not whole milliseconds make tokio clocks run ahead of virtual time; step() returning a software error advances only some clocks; a client registered after the duration was exceeded still lets run() return Ok;
+  - rule ids of turmoil-net restart per Net (a RuleGuard kept from an earlier Net removes a rule of the next); a RuleGuard dropped inside a rule panics on the RefCell; the io_uring ring ignores the fd's access mode; a mid-step submission is back-dated to the step start; fsync ignores io_error_probability."""
 print(f"""You are auditing the Rust project tokio-rs/turmoil (a deterministic simulation framework: crates turmoil, turmoil-net, turmoil-fs, turmoil-io-uring) for GENUINE defects. You have your own scratch git worktree at {wt}. Work ONLY inside {wt} (never touch /repo or /verif, do not read /verif). The sandbox is offline: always pass --offline to cargo, and always set CARGO_TARGET_DIR={wt}/target so builds stay inside your worktree. Do not modify library sources (crates/*/src) except temporarily to try a candidate repair.
 
 Here is a semantic property the project is supposed to satisfy:
